@@ -243,9 +243,13 @@ def sub_rpe_result(case):
     cu = None
     if o["change_unit"] and unit0 in LENGTH_UNITS:
         cu = [Unit.millimeters, Unit.centimeters, Unit.kilometers][o["cu_i"] % 3]
-    # reference copies to compare the stored (reduced) trajectories with
     if o["still"]:
-        pass
+        # stationary stretches of the reference: zero reference distances (skipped by the ratio relation)
+        P = ref.P.copy()
+        for i in range(1, n, 2):
+            P[i] = P[i - 1]
+        ref = trajgen.Real(P, ref.Rs(), ref.mode, ref.T)
+        ro = ref.build(case["ref"]["pre"], timed=True)
     try:
         res = main_rpe.rpe(ro, eo, REL[relation], float(delta), Unit.frames, all_pairs=o["all_pairs"], align=o["align"],
                            ref_name="reference", est_name="estimate", change_unit=cu, support_loop=o["support_loop"])
